@@ -37,7 +37,7 @@ TS_FAMILY = ["TIMESTAMP_NTZ", "TIMESTAMP", "DATETIME", "TIMESTAMP_NTZ(9)"]
 ALL_TYPES = (["BOOLEAN", "NUMBER", "DECIMAL", "NUMERIC"] + [f"NUMBER({p},{s})" for p, s in NUMBER_GRID] + ["DECIMAL(12,3)", "NUMERIC(20,0)"]
              + INT_FAMILY + FLOAT_FAMILY + TEXT_FAMILY + ["CHAR", "CHARACTER", "DATE", "TIME", "TIME(3)"] + TS_FAMILY
              + ["TIMESTAMP_TZ", "BINARY", "VARBINARY", "VARIANT", "OBJECT", "ARRAY"])
-PATHS = ["literal", "pyformat", "qmark", "insert-select", "ctas", "clone", "write_pandas"]
+PATHS = ["literal", "execute_string", "pyformat", "qmark", "insert-select", "ctas", "clone", "write_pandas"]
 
 
 def _family(ty: str) -> str:
@@ -73,7 +73,10 @@ JSON_DOCS = {
 DOLLAR_TEXT = ["pay $amount now", "US$100", "$amount", "$AMOUNT$amount", "a$b_1 $x1 $$ $", "100% $amount %s"]
 
 
-def _values(rnd, ty: str, n: int, dollar: bool = False) -> list:
+SCRIPT_TEXT = ["C:\\temp\\new", "ends with a backslash\\", "semi;colon; it's", "-- not a comment", "/* nor ; this */ '", "a\\'b", "\\n is two chars", "é😀; \"dq\""]
+
+
+def _values(rnd, ty: str, n: int, dollar: bool = False, script: bool = False) -> list:
     """n Python values exactly representable in the Snowflake type, edges first"""
     fam = _family(ty)
     if fam == "bool":
@@ -91,6 +94,8 @@ def _values(rnd, ty: str, n: int, dollar: bool = False) -> list:
         pool = ["", " ", "a", "é😀𝄞", "it's", "back\\slash", "line1\nline2\ttab", "%s ? $x ; -- /* */", "x" * 1000, "\"dq\"", "NULL"]
         if ty == "CHAR" or ty == "CHARACTER":
             pool = ["a", "é", ""]
+        elif script:
+            pool = SCRIPT_TEXT + pool
         elif dollar:
             # `$name` inside a bound value is data: never inlined, whether or not a session variable of that name exists
             pool = DOLLAR_TEXT + pool
@@ -224,7 +229,7 @@ def _run_case(conns, case) -> dict:
         if path == "write_pandas":
             # a quoted, lower-case column name with a space: `_insert_df` must insert by quoted column name
             cur.execute(f'create or replace table T (id int, c {ty}, "k w" varchar)')
-        elif path in ("literal", "pyformat", "qmark"):
+        elif path in ("literal", "execute_string", "pyformat", "qmark"):
             cur.execute(f"create or replace table T {tgt_cols}")
         stage = path in ("insert-select", "ctas", "clone")
         if stage:
@@ -236,6 +241,13 @@ def _run_case(conns, case) -> dict:
             for i, v in enumerate(vals):
                 cur.execute(f"insert into {t} values ({i + 1}, {_literal(ty, v)})")
                 counts.append(cur.fetchall()[0][0])
+        elif path == "execute_string":
+            # one script: several INSERT statements with literals, separators and comments in between
+            seps = [";\n", "; -- trailing ; comment\n", ";\n/* block ; comment */ ", ";  "]
+            script = "".join(f"insert into T values ({i + 1}, {_literal(ty, v)})" + seps[i % len(seps)] for i, v in enumerate(vals))
+            curs = list(conn.execute_string(script))
+            out["script_cursors"] = len(curs)
+            counts = [c.fetchall()[0][0] for c in curs]
         elif path in ("pyformat", "qmark"):
             ph = "%s" if path == "pyformat" else "?"
             for i, v in enumerate(vals):
@@ -271,6 +283,28 @@ def _run_case(conns, case) -> dict:
         out["counts"] = counts
         cur.execute("select id, c from T order by id")
         out["rows"] = [[r[0], _canon(r[1])] for r in cur.fetchall()]
+        # the same result through the other fetch shapes: every written row exactly once whatever the shape
+        shapes = {}
+        asz = 2 + (len(vals) % 2)
+        c2 = conn.cursor()
+        c2.execute("select id, c from T order by id")
+        c2.arraysize = asz
+        got = []
+        while (r := c2.fetchone()) is not None and len(got) < 100:
+            got.append([r[0], _canon(r[1])])
+        shapes[f"fetchone-loop(arraysize={asz})"] = got
+        c2.execute("select id, c from T order by id")
+        got = []
+        while (chunk := c2.fetchmany(asz)) and len(got) < 100:
+            got += [[r[0], _canon(r[1])] for r in chunk]
+        shapes[f"fetchmany({asz})-loop"] = got
+        c2.execute("select id, c from T order by id")
+        c2.arraysize = 3
+        got = [[r[0], _canon(r[1])] for r in (c2.fetchmany() + c2.fetchall())]
+        shapes["fetchmany()+fetchall"] = got
+        c2.execute("select id from T order by id")
+        shapes["fetch_pandas_all(ids)"] = [int(x) for x in c2.fetch_pandas_all()["ID"].tolist()]
+        out["shapes"] = shapes
         try:
             d = cur.description[1]
             out["descr"] = [d.type_code, d.precision, d.scale]
@@ -366,7 +400,7 @@ def _cases(chk, rnd) -> list[dict]:
             for rep in range(per):
                 fam = _family(ty)
                 dollar = fam == "text" and path in ("pyformat", "qmark", "write_pandas", "insert-select", "ctas", "clone")
-                vals = _values(rnd, ty, 4, dollar=dollar and path in ("pyformat", "qmark", "write_pandas"))
+                vals = _values(rnd, ty, 4, dollar=dollar and path in ("pyformat", "qmark", "write_pandas"), script=path == "execute_string")
                 if path == "write_pandas" and fam == "int":
                     vals = [v for v in vals if -(2**63) <= v < 2**63] or [0]      # an int64 dataframe column cannot hold more
                     nullpos = None       # nor a NULL
@@ -490,6 +524,15 @@ def _check_value(chk, case, real, tyrep, fitreps):
         chk.violation(f"{ty} via {path}: wrote ids {[e[0] for e in exp]}, read back {[g[0] for g in got]} (every row exactly once)", rcase,
                       broken="C01_clone/C01_insert_select (rows)")
         return
+    for name, rows in (real.get("shapes") or {}).items():
+        want = [g[0] for g in got] if name.startswith("fetch_pandas_all") else got
+        if rows != want:
+            chk.violation(f"{ty} via {path}: {len(got)} rows written and returned by fetchall (ids {[g[0] for g in got]}), but {name} hands out "
+                          f"{[r if isinstance(r, int) else r[0] for r in rows]}", rcase, broken="C01 every written row exactly once (fetch shape; C05_prefix/C05_fetchall_complete)")
+            return
+    if path == "execute_string" and real.get("script_cursors") != len(vals):
+        chk.violation(f"{ty} via execute_string: {len(vals)} statements in the script, {real.get('script_cursors')} cursors returned", rcase, broken="C01 execute_string ingestion")
+        return
     if path in ("insert-select", "ctas", "clone") and real.get("src_rows") != got:
         chk.violation(f"{ty} via {path}: target rows {got} ≠ source rows {real.get('src_rows')}", rcase, broken="C01_clone/C01_ctas/C01_insert_select")
         return
@@ -611,7 +654,7 @@ def _model_lines(cases):
 def run(chk) -> None:
     rnd = random.Random(chk.seed)
     cases = _cases(chk, rnd)
-    chk.rule = (f"every type spelling of the property ({len(ALL_TYPES)}, with a (p,s) grid) x 7 ingestion paths x 4 values (forced edges + random) with a NULL in a "
+    chk.rule = (f"every type spelling of the property ({len(ALL_TYPES)}, with a (p,s) grid) x 8 ingestion paths x 4 values (forced edges + random) with a NULL in a "
                 "random position; all-NULL tables; copy statements over integer tables with duplicates/NULLs vs the Lean relational model. "
                 "non-trivial = case that writes at least one non-NULL value / non-empty source")
     shards = common.chunks(cases, 16)
